@@ -1,7 +1,157 @@
-// correspondence + search binary for property C02 (stub)
+// C02 — chips are conserved and a hand is zero-sum along every history.
+//
+// Correspondence: the real `Game` is driven along random histories (legal() ∪ every raise size,
+// crossed with forced seat0-wins / seat1-wins / tie deals); after every action the canonical
+// state line is written (`game …`), at the end of the hand the real `settlements()` (`rewards …`).
+// The Lean driver replays the same lines on `RP.Game`.
+//
+// Search oracle (independent of the model, written from the property text): an own ledger of
+// what each player has put in, updated from the action list only, is compared with the engine's
+// stacks / spent / pot after every action; at the end of the hand the payout is compared with
+// the heads-up rule (contested part to the stronger hand or split, the uncalled part back, a
+// folded player gets nothing).
+#[path = "../gamewalk.rs"]
+mod gamewalk;
+use gamewalk::*;
+use robopoker::gameplay::action::Action;
+use robopoker::gameplay::game::Game;
+use robopoker::gameplay::ply::Turn;
+use robopoker::gameplay::seat::State;
+use rpharness::*;
+
+const STACK: i32 = robopoker::verif::STACK as i32;
+const BB: i32 = robopoker::verif::B_BLIND as i32;
+const SB: i32 = robopoker::verif::S_BLIND as i32;
+
+fn chips_of(a: &Action) -> i32 {
+    match a {
+        Action::Call(n) | Action::Raise(n) | Action::Shove(n) | Action::Blind(n) => *n as i32,
+        _ => 0,
+    }
+}
+
+/// conservation oracle along one history; returns the ledger at the end
+fn check_history(run: &mut Run, deal: &Deal, hist: &[Action], states: &[Game]) -> [i32; 2] {
+    let name = |i: usize| format!("game {} {} | {}", deal.h0, deal.h1, hist_tok(&hist[..i]));
+    // the freshly dealt hand: blinds are in, nothing else
+    let s = states[0].verif_seats();
+    let mut paid = [STACK - s[0].1 as i32, STACK - s[1].1 as i32];
+    run.spec_checked += 1;
+    let mut blinds = paid;
+    blinds.sort();
+    if blinds != [SB, BB] || states[0].pot() as i32 != SB + BB {
+        run.fail("root-blinds", &name(0), &format!("blinds {SB}/{BB} posted, pot {}", SB + BB), &format!("paid {paid:?} pot {}", states[0].pot()));
+    }
+    for i in 0..=hist.len() {
+        let g = &states[i];
+        if i > 0 {
+            // the chips of action i-1 come from the player whose turn it was
+            if let Turn::Choice(p) = states[i - 1].turn() {
+                paid[p] += chips_of(&hist[i - 1]);
+            } else if chips_of(&hist[i - 1]) != 0 {
+                run.fail("chips-moved-without-actor", &name(i), "no chips", &act_tok(&hist[i - 1]));
+            }
+        }
+        let s = g.verif_seats();
+        run.spec_checked += 1;
+        let mut ok = g.pot() as i32 == paid[0] + paid[1];
+        for p in 0..2 {
+            ok &= s[p].1 >= 0 && s[p].1 as i32 == STACK - paid[p] && s[p].3 as i32 == paid[p] && s[p].2 >= 0 && s[p].2 <= s[p].3;
+            ok &= (s[p].1 == 0) == (s[p].0 == State::Shoving) || s[p].0 == State::Folding;
+        }
+        if !ok {
+            run.fail("conservation", &name(i), &format!("pot {} stacks {:?} spent {:?}", paid[0] + paid[1], [STACK - paid[0], STACK - paid[1]], paid),
+                &format!("pot {} stacks [{}, {}] spent [{}, {}] stakes [{}, {}]", g.pot(), s[0].1, s[1].1, s[0].3, s[1].3, s[0].2, s[1].2));
+        }
+        run.distinct(&betting_key(g));
+        run.count(&format!("{}:{}", street_name(g), turn_kind(g)));
+    }
+    paid
+}
+
+/// heads-up payout rule
+fn payout_oracle(paid: [i32; 2], folded: [bool; 2], rank: (u8, u8)) -> [i32; 2] {
+    let pot = paid[0] + paid[1];
+    if folded[0] && !folded[1] {
+        return [0, pot];
+    }
+    if folded[1] && !folded[0] {
+        return [pot, 0];
+    }
+    let eff = paid[0].min(paid[1]);
+    let back = [paid[0] - eff, paid[1] - eff]; // uncalled part
+    let contested = 2 * eff;
+    if rank.0 > rank.1 {
+        [contested + back[0], back[1]]
+    } else if rank.0 < rank.1 {
+        [back[0], contested + back[1]]
+    } else {
+        [contested / 2 + back[0], contested - contested / 2 + back[1]]
+    }
+}
+
 fn main() {
-    let a = rpharness::args();
-    let mut run = rpharness::Run::new(&a.out);
-    run.rule = "stub".into();
+    let a = args();
+    let mut rng = Rng::new(a.seed);
+    let mut run = Run::new(&a.out);
+    quiet_panics();
+    let n_hist: usize = if a.thorough() { 400_000 } else { 30_000 };
+    let deals = make_deals(&mut rng, 64);
+    run.rule = format!(
+        "{n_hist} random histories of the real Game (5 play styles x legal() ∪ every raise size) over {} forced deals (crafted seat0-wins/seat1-wins/tie + random), state compared after every action, settlements at the end of every hand; a case = one visited betting state, non-trivial always (blinds are in), distinct by (pot, seats, ticker, street)",
+        deals.len()
+    );
+    for h in 0..n_hist {
+        let deal = &deals[h % deals.len()];
+        let style = (h / deals.len()) as u64 % 5;
+        let (hist, states) = random_history(&mut rng, deal, style);
+        run.evaluations += states.len() as u64;
+        let line = states.iter().map(state_line).collect::<Vec<_>>().join(" ; ");
+        run.line(&format!("game {} {} | {}", deal.h0, deal.h1, hist_tok(&hist)), &line);
+        let paid = check_history(&mut run, deal, &hist, &states);
+        let last = states.last().unwrap();
+        let op_end = format!("game {} {} | {}", deal.h0, deal.h1, hist_tok(&hist));
+        if last.turn() != Turn::Terminal {
+            run.fail("hand-does-not-end", &op_end, "terminal within 400 actions", &turn_tok(last.turn()));
+            continue;
+        }
+        // end of the hand
+        let rk = ranks(last);
+        let seats = last.verif_seats();
+        let folded = [seats[0].0 == State::Folding, seats[1].0 == State::Folding];
+        let op = format!("rewards {} {} | {} | {} {}", deal.h0, deal.h1, hist_tok(&hist), rk.0, rk.1);
+        let g = *last;
+        match catch(move || g.settlements().iter().map(|s| (s.reward as i32, s.pnl() as i32)).collect::<Vec<_>>()) {
+            None => {
+                run.line(&op, "panic");
+                run.fail("settlements-panic", &op, "rewards", "panic");
+            }
+            Some(v) => {
+                run.line(&op, &format!("{} {} {} {}", v[0].0, v[1].0, v[0].1, v[1].1));
+                run.spec_checked += 1;
+                let want = payout_oracle(paid, folded, rk);
+                let got = [v[0].0, v[1].0];
+                let pot = last.pot() as i32;
+                if got != want || got[0] + got[1] != pot || v[0].1 + v[1].1 != 0 || v[0].1 != got[0] - paid[0] || v[1].1 != got[1] - paid[1] {
+                    run.fail("payout", &op, &format!("rewards {want:?} (pot {pot}, zero-sum)"), &format!("rewards {got:?} pnl [{}, {}]", v[0].1, v[1].1));
+                }
+                let how = if folded[0] || folded[1] { "fold" } else if rk.0 == rk.1 { "showdown-tie" } else if rk.0 > rk.1 { "showdown-seat0" } else { "showdown-seat1" };
+                run.count(&format!("end:{}:{}", street_name(last), how));
+                if seats[0].1 == 0 && seats[1].1 == 0 {
+                    run.count("end:all-in-runout");
+                }
+            }
+        }
+        // settlements() before the end of the hand is refused (model: none)
+        if h % 16 == 0 && hist.len() > 1 {
+            let k = rng.below(hist.len() as u64 - 1) as usize;
+            let g = states[k];
+            let op = format!("rewards {} {} | {} | 1 0", deal.h0, deal.h1, hist_tok(&hist[..k]));
+            let r = catch(move || g.settlements().iter().map(|s| s.reward).collect::<Vec<_>>());
+            run.line(&op, &match r { None => "panic".to_string(), Some(v) => format!("{} {} ? ?", v[0], v[1]) });
+            run.count("settlements-before-end");
+        }
+    }
+    run.exhaustive = false;
     run.finish();
 }
